@@ -31,6 +31,35 @@ def observe(obj, seed):
         return {"status": "exc", "exc": type(exc).__name__, "log": digest(trace.events)}
 
 
+def observe_system(S, seed, limit=60):
+    """single generation and the first `limit` molecules of the ensemble, both with a freshly seeded generator"""
+    from ..monitors.rng import SpyRNG
+    from ..util import StepTimeout, time_limit
+
+    rec = {"str": str(S), "noext": S.generate_string(False), "generable": bool(S.generable)}
+    try:
+        with time_limit(30):
+            g = S.generate(rng=SpyRNG(seed))
+        rec["single"] = ["ok", g.smiles, g.weight]
+    except StepTimeout:
+        rec["single"] = ["watchdog"]
+    except Exception as exc:
+        rec["single"] = ["exc", type(exc).__name__]
+    seq = []
+    try:
+        with time_limit(60):
+            for k, g in enumerate(type(S).generator.fget(S, SpyRNG(seed))):
+                seq.append([g.smiles, g.weight])
+                if k + 1 >= limit:
+                    break
+        rec["ensemble"] = ["ok", seq]
+    except StepTimeout:
+        rec["ensemble"] = ["watchdog"]
+    except Exception as exc:
+        rec["ensemble"] = ["exc", type(exc).__name__, seq]
+    return rec
+
+
 def main():
     from .. import env
 
@@ -40,7 +69,11 @@ def main():
     spec = json.load(open(sys.argv[1]))
     out = {}
     objs = {}
-    for text, seed in spec["items"]:
+    for item in spec["items"]:
+        text, seed = item[0], item[1]
+        if len(item) > 2 and item[2] == "system":
+            out[f"{text}|{seed}"] = observe_system(gbigsmiles.System(text), seed)
+            continue
         if text not in objs:
             objs[text] = gbigsmiles.Molecule(text)  # one fresh object per string; each (text, seed) on a fresh parse below
         M = gbigsmiles.Molecule(text)
